@@ -270,6 +270,9 @@ def passthrough_cases(tier, seed):
                     for s in range(3):
                         out.append({"ref": name, "spec": spec, "gt": gt, "sampler": sampler, "mode": mode,
                                     "npseed": 3 * seed + s})
+                    if gt is not None:
+                        out.append({"ref": name, "spec": spec, "gt": gt, "sampler": sampler, "mode": mode,
+                                    "npseed": 3 * seed, "reuse": True})
     return out
 
 
@@ -285,6 +288,10 @@ def run_passthrough(case):
     probs = []
     try:
         with serial_pool():
+            if case.get("reuse"):
+                # non-initial state: the sampler object already served a computation on the same continuum
+                # (all annotators as ground truth), then the continuum got one more unit
+                c.compute_gamma(d, n_samples=1, sampler=smp, **MODES[case["mode"]])
             res = c.compute_gamma(d, n_samples=3, ground_truth_annotators=case["gt"], sampler=smp, **MODES[case["mode"]])
     except Exception as e:  # noqa
         return [f"compute_gamma raised: {type(e).__name__}: {e}"], None
